@@ -44,6 +44,11 @@ type Case struct {
 	// destination of the first conversion once that one has been emptied
 	// (slices of scalars cut to length zero with their capacity kept, everything else zeroed)
 	Hex2 string `json:"hex2,omitempty"`
+	// Keep: the destination is not emptied before the second conversion (a
+	// variable holding the previous answer is handed in again); only for
+	// destination types without a map, interface or pointer, whose conversion
+	// overwrites every element and field it reaches
+	Keep bool `json:"keep,omitempty"`
 }
 
 func typeOpts() gen.TypeOpts {
@@ -75,7 +80,12 @@ func genCase(t *rapid.T) Case {
 		c.Desc = c.Desc[:300] + "..."
 	}
 	if c.Incompat < 0 && rapid.Bool().Draw(t, "second") {
-		c.Hex2 = hex.EncodeToString(ref.Encode(ty, gen.DrawValue(t, ty, vo)))
+		v2 := gen.DrawValue(t, ty, vo)
+		if rapid.IntRange(0, 3).Draw(t, "shorter") == 0 {
+			v2 = shrinkLists(v2)
+		}
+		c.Hex2 = hex.EncodeToString(ref.Encode(ty, v2))
+		c.Keep = rapid.Bool().Draw(t, "keep")
 	}
 	return c
 }
@@ -106,6 +116,42 @@ func emptyKeepingCapacity(v reflect.Value) {
 			emptyKeepingCapacity(v.Field(i))
 		}
 	}
+}
+
+// shrinkLists empties every list of the value: the second value of a reused
+// destination is then shorter than the first one wherever it can be.
+func shrinkLists(v interface{}) interface{} {
+	switch x := v.(type) {
+	case ref.List:
+		return ref.List{}
+	case ref.Tuple:
+		out := make(ref.Tuple, len(x))
+		for i, e := range x {
+			out[i] = shrinkLists(e)
+		}
+		return out
+	}
+	return v
+}
+
+// overwritesEverything: a conversion into a destination of this type which
+// already holds a value leaves nothing of that value (slices are cut or grown
+// to the source's length, every element and every field is assigned). Maps are
+// merged into, interfaces and pointers are followed: not judged.
+func overwritesEverything(t reflect.Type) bool {
+	switch t.Kind() {
+	case reflect.Map, reflect.Interface, reflect.Ptr:
+		return false
+	case reflect.Slice:
+		return overwritesEverything(t.Elem())
+	case reflect.Struct:
+		for i := 0; i < t.NumField(); i++ {
+			if !overwritesEverything(t.Field(i).Type) {
+				return false
+			}
+		}
+	}
+	return true
 }
 
 var signed = []reflect.Type{reflect.TypeOf(int8(0)), reflect.TypeOf(int16(0)), reflect.TypeOf(int32(0)), reflect.TypeOf(int64(0)), reflect.TypeOf(int(0))}
@@ -585,7 +631,10 @@ func checkCase(c Case) error {
 		src2 := bridge.ToGo(ty, v2, nil)
 		reached2 := false
 		want2 := expect(dn, ty, v2, &reached2)
-		emptyKeepingCapacity(dst.Elem())
+		kept := c.Keep && overwritesEverything(dn.typ)
+		if !kept {
+			emptyKeepingCapacity(dst.Elem())
+		}
 		err, p := convert(dst.Interface(), src2.Interface())
 		if p != nil {
 			return vt.Violationf(cls+":reused-destination-panic", "ConvertFrom(%v <- %v) into an emptied, previously used destination panicked: %v", dn.typ, src.Type(), p)
@@ -596,7 +645,11 @@ func checkCase(c Case) error {
 		if err := same(dst.Elem(), want2); err != nil {
 			return vt.Violationf(cls+":reused-destination", "ConvertFrom(%v <- %v) of %s into a destination used before (first value %s) and emptied since: %v\n got  %v\n want %v", dn.typ, src.Type(), ref.Render(v2), c.Desc, err, dst.Elem(), want2)
 		}
-		vt.Label("destination-reused")
+		if kept {
+			vt.Label("destination-reused-as-it-was")
+		} else {
+			vt.Label("destination-reused")
+		}
 	}
 	multi := false
 	var walk func(t *ref.Type, v interface{})
